@@ -60,7 +60,9 @@ ConnEvent(S, f, writable(_)) ==
     LET c == S.srv[f].peer IN
     IF Hangup(S, c) THEN "HUP"
     ELSE IF S.srv[f].intr = "IN" /\ S.c2s[c] # <<>> THEN "IN"
-    ELSE IF S.srv[f].intr = "OUT" /\ (PeerGone(S, c) \/ writable(c)) THEN "OUT"
+    \* (a peer that only shut down its receiving side does NOT make a full socket writable: the data
+    \*  it never read still occupies the send buffer; the next write that gets through fails with EPIPE)
+    ELSE IF S.srv[f].intr = "OUT" /\ writable(c) THEN "OUT"
     ELSE "none"
 
 ReadySet(S, writable(_)) ==
